@@ -12,7 +12,17 @@ func init() {
 	execs["access"] = execAccess
 
 	noRevoke := without(defectKinds, "revoke")
-	gens["C01"] = worldGen("C01", 2000, 40000, genOpts{maxDepth: 6, sessions: true, kinds: noRevoke})
+	c01 := worldGen("C01", 2000, 40000, genOpts{maxDepth: 6, sessions: true, kinds: noRevoke})
+	// a stratum for issuers verified through wrapped verifiers (did:web accounts with a resolvable key,
+	// a did:web service): tokens altered after signing, tokens signed by another key
+	c01w := worldGen("C01", 300, 6000, genOpts{minDepth: 1, maxDepth: 4, sessions: true, sessionPct: 100, webAccount: true, properSession: false,
+		kinds: []string{"tamper-wrapped", "tamper-wrapped", "wrongkey-account", "none"}})
+	gens["C01"] = func(cfg Config, emit Emit) error {
+		if err := c01(cfg, emit); err != nil {
+			return err
+		}
+		return c01w(cfg, emit)
+	}
 	// C02: restricting caveats at every level, all three derivation rules, re-delegated attestations
 	c02 := worldGen("C02", 2000, 40000, genOpts{maxDepth: 5, sessions: true, sessionPct: 30, caveats: true, caveatPct: 60,
 		kinds: []string{"none", "none", "permute", "decoys", "resource", "ability", "dup", "nbf-ok", "twincap", "nearmiss"}})
@@ -29,8 +39,13 @@ func init() {
 	// C04: a non-key issuer somewhere in the chain, every attestation variant, key resolver variants
 	c04 := worldGen("C04", 2000, 40000, genOpts{minDepth: 1, maxDepth: 5, sessions: true, sessionPct: 100,
 		kinds: []string{"none", "none", "none", "wrongkey", "tamper", "expired", "tooearly", "aud", "decoys", "permute", "policy", "algcode", "dup"}})
+	c04w := worldGen("C04", 300, 6000, genOpts{minDepth: 1, maxDepth: 4, sessions: true, sessionPct: 100, webAccount: true,
+		kinds: []string{"wrongkey-account", "wrongkey-account", "none", "tamper-wrapped"}})
 	gens["C04"] = func(cfg Config, emit Emit) error {
 		if err := c04(cfg, emit); err != nil {
+			return err
+		}
+		if err := c04w(cfg, emit); err != nil {
 			return err
 		}
 		// the same session validated before and after the attestation's window boundary passes
